@@ -175,12 +175,11 @@ Proof. unfold failover_status_stream. rewrite try_backends_id. reflexivity. Qed.
 Definition is_forward_state (n : N) : bool := (n =? 2) || (n =? 3).
 
 Lemma classify_forward p h extra rest :
-  frame_ok p -> dec_handshake_payload p = Some (h, extra) ->
-  star_route_matches (hs_addr h) = true -> is_forward_state (hs_next h) = true ->
+  frame_ok p -> dec_handshake_payload p = Some (h, extra) -> is_forward_state (hs_next h) = true ->
   classify (frame p ++ rest) = ReqForward p h rest.
 Proof.
-  intros Hf Hd Hm Hs. unfold classify. rewrite next_packet_frame by exact Hf.
-  rewrite Hd, Hm. cbn [negb]. unfold is_forward_state in Hs. rewrite Hs. reflexivity.
+  intros Hf Hd Hs. unfold classify. rewrite next_packet_frame by exact Hf.
+  rewrite Hd. unfold is_forward_state in Hs. rewrite Hs. reflexivity.
 Qed.
 
 (* ---------- C31_identity_when_no_rewrite ---------- *)
@@ -196,12 +195,11 @@ Proof.
 Qed.
 
 Theorem identity_when_no_rewrite mvh r ca now p h extra rest :
-  frame_ok p -> dec_handshake_payload p = Some (h, extra) ->
-  star_route_matches (hs_addr h) = true -> is_forward_state (hs_next h) = true ->
+  frame_ok p -> dec_handshake_payload p = Some (h, extra) -> is_forward_state (hs_next h) = true ->
   rewrite_flag mvh r (hs_addr h) = false ->
   lite_flow mvh r ca now (frame p ++ rest) = FlowForward (proxy_prefix r ca ++ frame p ++ rest).
 Proof.
-  intros Hf Hd Hm Hs Hr. unfold lite_flow. rewrite (classify_forward p h extra rest Hf Hd Hm Hs).
+  intros Hf Hd Hs Hr. unfold lite_flow. rewrite (classify_forward p h extra rest Hf Hd Hs).
   rewrite failover_rewrites_once. unfold lite_backend_stream. rewrite handshake_frame_no_rewrite by exact Hr. reflexivity.
 Qed.
 
@@ -249,8 +247,7 @@ Qed.
 (* The backend can read back the forwarded handshake: one frame whose payload decodes to the client's
    handshake with ONLY the address replaced (no left-over bytes), followed by the client's bytes. *)
 Theorem rewrite_only_address mvh r ca now p h extra rest :
-  wf_bytes p -> frame_ok p -> dec_handshake_payload p = Some (h, extra) ->
-  star_route_matches (hs_addr h) = true -> is_forward_state (hs_next h) = true ->
+  wf_bytes p -> frame_ok p -> dec_handshake_payload p = Some (h, extra) -> is_forward_state (hs_next h) = true ->
   rewrite_flag mvh r (hs_addr h) = true ->
   let a' := new_address mvh r ca now (hs_addr h) in
   let p' := enc_handshake_payload (set_addr h a') in
@@ -259,10 +256,10 @@ Theorem rewrite_only_address mvh r ca now p h extra rest :
   read_frame (frame p' ++ rest) = FPayload p' rest /\
   dec_handshake_payload p' = Some (mkHs (hs_proto h) a' (hs_port h) (hs_next h), []).
 Proof.
-  intros Hw Hf Hd Hm Hs Hr a' p' Ha Hp.
+  intros Hw Hf Hd Hs Hr a' p' Ha Hp.
   pose proof (dec_handshake_wf p h extra Hw Hd) as (W1 & W2 & W3 & W4).
   split; [|split].
-  - unfold lite_flow. rewrite (classify_forward p h extra rest Hf Hd Hm Hs).
+  - unfold lite_flow. rewrite (classify_forward p h extra rest Hf Hd Hs).
     rewrite failover_rewrites_once. unfold lite_backend_stream. rewrite handshake_frame_rewrite by (rewrite Hr; reflexivity).
     reflexivity.
   - apply read_frame_frame. split; [apply payload_nonempty|exact Hp].
@@ -285,14 +282,13 @@ Qed.
 (* ---------- status pings ---------- *)
 
 Theorem status_flow mvh r ca now p h extra q rest0 rest :
-  frame_ok p -> frame_ok q -> dec_handshake_payload p = Some (h, extra) ->
-  star_route_matches (hs_addr h) = true -> hs_next h = 1 -> is_status_request q = true ->
+  frame_ok p -> frame_ok q -> dec_handshake_payload p = Some (h, extra) -> hs_next h = 1 -> is_status_request q = true ->
   rest0 = frame q ++ rest ->
   lite_flow mvh r ca now (frame p ++ rest0) =
   FlowStatus (proxy_prefix r ca ++ handshake_frame mvh r ca now (r_cache r) p h ++ frame q).
 Proof.
-  intros Hf Hq Hd Hm Hn Hs ->. unfold lite_flow, classify.
-  rewrite next_packet_frame by exact Hf. rewrite Hd, Hm, Hn. cbn [negb N.eqb orb Pos.eqb].
+  intros Hf Hq Hd Hn Hs ->. unfold lite_flow, classify.
+  rewrite next_packet_frame by exact Hf. rewrite Hd, Hn. cbn [N.eqb orb Pos.eqb].
   rewrite next_packet_frame by exact Hq. rewrite Hs. rewrite failover_status_rewrites_once. reflexivity.
 Qed.
 (* ---------- C31_pipe_identity: bufio buffer + pipe ---------- *)
@@ -470,7 +466,7 @@ Proof.
     + eapply same_ip_refl16; [exact Es|]. unfold to16. rewrite Ls. reflexivity.
     + eapply same_ip_refl16; [exact Ed|]. unfold to16. rewrite Ld. reflexivity.
 Qed.
-(* ---------- ReplaceAll vs. replacing the host part (finding C31-1) ---------- *)
+(* ---------- PRE-FIX code: ReplaceAll vs. replacing the host part (finding C31-1, fixed in d2ccd45) ---------- *)
 
 Lemma contains_cons_false old x r : contains old (x :: r) = false ->
   prefixb old (x :: r) = false /\ contains old r = false.
@@ -524,12 +520,16 @@ Proof.
   - f_equal. eapply IH; eassumption.
 Qed.
 
-Theorem impl_mvh_eq_spec_off_trigger backend addr :
+(* the code as it is now performs exactly the specified rewrite, on every input *)
+Theorem impl_mvh_eq_spec backend addr : impl_mvh backend addr = spec_mvh backend addr.
+Proof. reflexivity. Qed.
+
+Theorem old_impl_mvh_eq_spec_off_trigger backend addr :
   mvh_applies backend addr = true -> mvh_trigger backend addr = false ->
-  impl_mvh backend addr = spec_mvh backend addr.
+  old_impl_mvh backend addr = spec_mvh backend addr.
 Proof.
   intros Ha Ht. unfold mvh_trigger in Ht. rewrite Ha in Ht. cbn [andb] in Ht.
-  unfold impl_mvh, spec_mvh, go_replace_all, go_replace_first.
+  unfold old_impl_mvh, spec_mvh, go_replace_all, go_replace_first.
   destruct (clear_virtual_host addr) as [|c0 c] eqn:Ec; [discriminate|].
   destruct (after (c0 :: c) addr) as [tail|] eqn:Et.
   - eapply replace_all_once; [discriminate|exact Et|exact Ht].
@@ -540,17 +540,17 @@ Qed.
 (* lifted to the whole flow: off the trigger class the code and the specification coincide *)
 Lemma rewrite_address_off_trigger r ca now addr :
   r_mvh r && mvh_trigger (r_backend_host r) addr = false ->
-  rewrite_address impl_mvh r ca now addr = rewrite_address spec_mvh r ca now addr.
+  rewrite_address old_impl_mvh r ca now addr = rewrite_address spec_mvh r ca now addr.
 Proof.
   intro H. unfold rewrite_address.
   destruct (r_mvh r) eqn:Em; cbn [andb] in *; [|reflexivity].
   destruct (mvh_applies (r_backend_host r) addr) eqn:Ea; [|reflexivity].
-  rewrite (impl_mvh_eq_spec_off_trigger _ _ Ea H). reflexivity.
+  rewrite (old_impl_mvh_eq_spec_off_trigger _ _ Ea H). reflexivity.
 Qed.
 
-Theorem impl_flow_eq_spec_off_trigger r ca now p h rest :
+Theorem old_impl_flow_eq_spec_off_trigger r ca now p h rest :
   r_mvh r && mvh_trigger (r_backend_host r) (hs_addr h) = false ->
-  lite_backend_stream impl_mvh r ca now p h rest = lite_backend_stream spec_mvh r ca now p h rest.
+  lite_backend_stream old_impl_mvh r ca now p h rest = lite_backend_stream spec_mvh r ca now p h rest.
 Proof.
   intro H. unfold lite_backend_stream, handshake_frame.
   rewrite (rewrite_address_off_trigger r ca now (hs_addr h) H). reflexivity.
@@ -562,16 +562,16 @@ Definition b127 : bytes := [49;50;55;46;48;46;48;46;49].       (* "127.0.0.1" *)
 Definition fml : bytes := [0;70;77;76;0].                       (* "\x00FML\x00" *)
 Definition a_com : bytes := [97;46;99;111;109].                 (* "a.com" *)
 
-Theorem impl_mvh_refuted :
-  impl_mvh b127 fml <> spec_mvh b127 fml /\
-  impl_mvh b127 [46] <> spec_mvh b127 [46] /\
-  impl_mvh b127 (a_com ++ [0] ++ a_com ++ [0]) <> spec_mvh b127 (a_com ++ [0] ++ a_com ++ [0]).
+Theorem old_impl_mvh_refuted :
+  old_impl_mvh b127 fml <> spec_mvh b127 fml /\
+  old_impl_mvh b127 [46] <> spec_mvh b127 [46] /\
+  old_impl_mvh b127 (a_com ++ [0] ++ a_com ++ [0]) <> spec_mvh b127 (a_com ++ [0] ++ a_com ++ [0]).
 Proof. repeat split; vm_compute; discriminate. Qed.
 
-Example impl_mvh_witness_values :
-  impl_mvh b127 fml = b127 ++ [0] ++ b127 ++ [70] ++ b127 ++ [77] ++ b127 ++ [76] ++ b127 ++ [0] ++ b127 /\
+Example old_impl_mvh_witness_values :
+  old_impl_mvh b127 fml = b127 ++ [0] ++ b127 ++ [70] ++ b127 ++ [77] ++ b127 ++ [76] ++ b127 ++ [0] ++ b127 /\
   spec_mvh b127 fml = b127 ++ fml /\
-  impl_mvh b127 (a_com ++ [0] ++ a_com ++ [0]) = b127 ++ [0] ++ b127 ++ [0] /\
+  old_impl_mvh b127 (a_com ++ [0] ++ a_com ++ [0]) = b127 ++ [0] ++ b127 ++ [0] /\
   spec_mvh b127 (a_com ++ [0] ++ a_com ++ [0]) = b127 ++ [0] ++ a_com ++ [0].
 Proof. repeat split; vm_compute; reflexivity. Qed.
 
@@ -684,3 +684,7 @@ Example eager_prepare_differs :
   lite_backend_stream spec_mvh fo_route fo_client 1700000000 p' h' [1;2;3] <>
   failover_stream spec_mvh fo_route fo_client 1700000000 p fo_hs [1;2;3].
 Proof. vm_compute. discriminate. Qed.
+
+(* the code's whole flow equals the specified one, on every input *)
+Theorem impl_flow_eq_spec r ca now cs : impl_flow r ca now cs = spec_flow r ca now cs.
+Proof. reflexivity. Qed.
